@@ -5,7 +5,12 @@ import random
 from . import tt
 from .denote import Den, Builder
 
-NAMES = ('a', 'b', 'c', 'd', 'e', 'f', 'g', 'h')
+# Some names are concatenations of other names, so that code which wrongly
+# iterates over the characters of a name ends up at *declared* variables
+# (a silent wrong result rather than an exception).
+NAME_OF = dict(a='a', b='b', c='ab', d='d', e='ba', f='f', g='ga', h='h',
+               i='i', j='ia', k='k', l='l')
+NAMES = tuple(NAME_OF[ch] for ch in 'abcdefgh')
 
 
 def names(n):
@@ -161,3 +166,19 @@ def sandwich_specs(tier, seed, kind='sandwich'):
             specs.append(dict(kind=kind, perturbation=pert, pos=pos,
                               order=orders(3)[(pi + pos) % 6], seed=seed))
     return specs
+
+
+def modernize(obj):
+    """Replays recorded before the universe got composite names spell
+    orders with the old single letters: translate (idempotent)."""
+    if isinstance(obj, dict):
+        for k, v in obj.items():
+            if (k == 'order' and isinstance(v, list)
+                    and all(isinstance(x, str) for x in v)):
+                obj[k] = [NAME_OF.get(x, x) for x in v]
+            else:
+                modernize(v)
+    elif isinstance(obj, list):
+        for v in obj:
+            modernize(v)
+    return obj
